@@ -12,7 +12,9 @@
             declared: travels in the header stream) | "pre_prod" / "pre_exch" (in a process() step of a producer /
             an exchange, before the batch) | "post_prod" / "post_exch" (in a step, after the batch, the caller then takes
             another turn) | "tail_prod" / "tail_exch" (after the batch of the LAST turn the caller takes: the message is
-            met only while the caller leaves the session)
+            met only while the caller leaves the session) | "prefail_prod" / "prefail_exch" (in a step that then raises,
+            nothing emitted) | "postfail_prod" / "postfail_exch" (in a step that emitted its batch, AFTER out.emit(), and
+            then raises): a failed step delivers every message it logged ahead of the error (and never its data batch)
      exit   how the caller leaves a session whose last turn has a tail message: "close" | "cancel" | "with" (__exit__);
             "close" everywhere else
      tr     "pipe" | "http"
@@ -31,12 +33,13 @@ EXTENDS Naturals, Sequences, FiniteSets
 Lvls == {"ERROR", "WARN", "INFO", "DEBUG", "TRACE"}
 Txts == {"ascii", "empty", "unicode", "multiline", "jsonish", "long"}
 Extras == {"none", "plain", "many", "unicode", "emptykey", "level", "message", "self", "both"}
-Ats == {"unary", "init", "init_hdr", "pre_prod", "post_prod", "pre_exch", "post_exch", "tail_prod", "tail_exch"}
+FailAts == {"prefail_prod", "prefail_exch", "postfail_prod", "postfail_exch"}
+Ats == {"unary", "init", "init_hdr", "pre_prod", "post_prod", "pre_exch", "post_exch", "tail_prod", "tail_exch"} \cup FailAts
 Tails == {"tail_prod", "tail_exch"}
 Exits == {"close", "cancel", "with"}
 Routes == {"inline", "shm", "ext", "buf"}
-ProdAts == {"init", "init_hdr", "pre_prod", "post_prod", "tail_prod"}
-StepAts == {"pre_prod", "post_prod", "pre_exch", "post_exch", "tail_prod", "tail_exch"}
+ProdAts == {"init", "init_hdr", "pre_prod", "post_prod", "tail_prod", "prefail_prod", "postfail_prod"}
+StepAts == {"pre_prod", "post_prod", "pre_exch", "post_exch", "tail_prod", "tail_exch"} \cup FailAts
 Cases == {c \in [lvl : Lvls, txt : Txts, extra : Extras, at : Ats, tr : {"pipe", "http"}, exit : Exits, route : Routes,
                  via : {"ctx", "out"}] :
              /\ c.at \notin Tails => c.exit = "close"
@@ -53,11 +56,14 @@ ReservedNames(c) == c.extra \in {"level", "message", "self", "both"}
 AlwaysDelivered(c) == (MustDeliver(c) <=> Expected(c).delivered = 1) /\ Expected(c).intact
 OnlyHttpProducerTailMayBeLost(c) == MustDeliver(c)
 
-(* o = [failed, delivered, level_ok, text_ok, extra_ok, before_payload]
+ExpectError(c) == c.at \in FailAts        \* the call ends with the step's error (that is its "payload")
+
+(* o = [failed, errored, delivered, level_ok, text_ok, extra_ok, before_payload]
+     failed: anything went wrong that the case does not call for;  errored: the server-side error reached the caller
      before_payload: the callback ran before the result / batch the message precedes was returned to the caller
      (a message logged after the batch precedes the NEXT item: not asserted for the two post emission points)                  *)
 Conforms(c, o) ==
-       {"CallSucceeds"   : x \in {1} \cap (IF ~o.failed THEN {} ELSE {1})}
+       {"CallSucceeds"   : x \in {1} \cap (IF ~o.failed /\ (o.errored <=> ExpectError(c)) THEN {} ELSE {1})}
   \cup {"DeliveredOnce"  : x \in {1} \cap (IF o.failed \/ o.delivered = 1 \/ (~MustDeliver(c) /\ o.delivered = 0) THEN {} ELSE {1})}
   \cup {"LevelPreserved" : x \in {1} \cap (IF o.delivered >= 1 => o.level_ok THEN {} ELSE {1})}
   \cup {"TextPreserved"  : x \in {1} \cap (IF o.delivered >= 1 => o.text_ok THEN {} ELSE {1})}
